@@ -24,6 +24,10 @@ pub struct ReplicaPlan {
   pub trace: bool,
   /// step counts of the successive `step(0, c)` requests
   pub steps: Vec<u64>,
+  /// the program is fed the way a REPL gets it: one `interpret` call per line (only for generated
+  /// programs whose every line is a statement of its own)
+  #[serde(default)]
+  pub piecewise: bool,
 }
 
 #[derive(Clone, Debug, Serialize, Deserialize)]
@@ -187,11 +191,13 @@ pub fn plan(seed: u64, k: u64, corpus: &[(String, String)]) -> Plan {
       6 => ("generated-no-assignments".to_string(), generated_program(&mut rng, false)),
       _ => corpus[rng.usize(corpus.len())].clone(),
     } };
+  let generated = name.starts_with("template-") || name.starts_with("relational-") || name.starts_with("hash-order-") || name.starts_with("generated-");
   let n_rep = 2 + rng.usize(2);
   let total = rng.below(13);
   let mut replicas = vec![];
   for _ in 0..n_rep {
-    replicas.push(ReplicaPlan { hash_seed: rng.next(), profile: rng.chance(1, 4), trace: rng.chance(1, 4), steps: decompose(&mut rng, total) });
+    let piecewise = generated && rng.chance(1, 3);
+    replicas.push(ReplicaPlan { hash_seed: rng.next(), profile: rng.chance(1, 4), trace: rng.chance(1, 4), steps: decompose(&mut rng, total), piecewise });
   }
   // schedule: a random interleaving of every replica's command list (interpret + its step requests)
   let mut slots = vec![];
@@ -265,6 +271,7 @@ pub fn execute(pl: &Plan) -> RunOut {
     let tree = tree.clone();
     let rp = r.clone();
     let max_steps = pl.max_steps;
+    let text = pl.program_text.clone();
     let h = std::thread::Builder::new().stack_size(crate::hashseed::NODE_STACK).spawn(move || {
       crate::hashseed::set_thread_hash_seed(rp.hash_seed);
       let mut node = Node::new();
@@ -273,7 +280,15 @@ pub fn execute(pl: &Plan) -> RunOut {
       if let Some(ms) = max_steps { node.intrp.max_steps = ms; }
       while let Ok(cmd) = crx.recv() {
         let outcome = match cmd {
-          Cmd::Interpret => node.interpret(&tree),
+          Cmd::Interpret => {
+            let lines: Vec<&str> = text.lines().filter(|l| !l.trim().is_empty()).collect();
+            let trees: Vec<Option<mech_core::nodes::Program>> = if rp.piecewise && lines.len() >= 2 { lines.iter().map(|l| parse_cached(l).ok().filter(|t| code_items(t).map(|c| c.len() == 1).unwrap_or(false))).collect() } else { vec![] };
+            if !trees.is_empty() && trees.iter().all(|t| t.is_some()) {
+              let mut last = None;
+              for t in trees.iter().flatten() { let o = node.interpret(t); let ok = o.is_ok(); last = Some(o); if !ok { break; } }
+              last.unwrap()
+            } else { node.interpret(&tree) }
+          }
           Cmd::Step(c) => node.step(0, c),
           Cmd::StepOne(id, c) => node.step(id, c),
           Cmd::Quit => break,
@@ -423,6 +438,7 @@ pub fn execute(pl: &Plan) -> RunOut {
   bump(&mut counters, "fault:profile-knob", pl.replicas.iter().filter(|r| r.profile).count() as u64);
   bump(&mut counters, "fault:trace-knob", pl.replicas.iter().filter(|r| r.trace).count() as u64);
   if pl.max_steps.is_some() { bump(&mut counters, "fault:low-transition-budget-knob", 1); }
+  bump(&mut counters, "fault:fed-line-by-line", pl.replicas.iter().filter(|r| r.piecewise).count() as u64);
   if state_changed_by_steps { bump(&mut counters, "reach:runs-where-steps-changed-state", 1); }
   sets.insert("programs".into(), vec![pl.program_name.clone()]);
   let max_total = total.iter().copied().max().unwrap_or(0);
